@@ -5,8 +5,7 @@
 
     - oxidd-rules-bdd/src/complement_edge/mod.rs: [not]/[not_owned] ([enot]),
       [get_terminal] ([cget_terminal]), [reduce] ([cmk_node]),
-      [BCDDRules::cofactors]/[cofactor]/[collect_cofactors] ([ccofs], via
-      [Pick.retag]), [terminal_and] ([cterminal_and]), [terminal_xor]
+      [BCDDRules::cofactors]/[cofactor]/[collect_cofactors] ([ccofs], [retag]), [terminal_and] ([cterminal_and]), [terminal_xor]
       ([cterminal_xor]), [BCDDOp as u8] ([cop_code], [ccode_ite]);
     - oxidd-rules-bdd/src/complement_edge/apply_rec.rs: [apply_bin::<OP>]
       ([capply_bin], [cbin_step]), [apply_ite] ([capply_ite], [cite_step]),
@@ -21,7 +20,7 @@
     A BCDD edge is a reference plus a complement tag ([edge] of DD/Table.v);
     the single terminal means true, a tagged edge to it means false.  The
     node store is a [snap]; nodes are inserted with [get_or_insert]
-    (DD/Build.v), the terminal is looked up with [Pick.bcdd_term].  Recursion
+    (DD/Build.v), the terminal is looked up with [bc_term_id].  Recursion
     is on explicit fuel; [None] = fuel exhausted or one of the code's
     [unwrap]s / [get_node]s would fail (missing terminal, dangling reference,
     node without two children).  [S (nlevels s)] is always enough fuel
@@ -38,8 +37,22 @@
     is a parameter [lt] here; the theorems hold for every [lt]. *)
 
 From Coq Require Import List NArith PArith Bool Arith FMapPositive.
-From OxiVerif Require Import DD.Table DD.Sem DD.Build DD.Apply DD.Pick.
+From OxiVerif Require Import DD.Table DD.Sem DD.Build DD.Apply.
 Import ListNotations.
+
+(** the definitions of this file are self-contained (DD/Pick.v has the same
+    [retag] / terminal lookup for cube picking; that development is
+    independent of this one) *)
+
+(** [Manager::get_terminal(BCDDTerminal)]: the id of the single terminal *)
+Definition bc_term_id (s : snap) : option N :=
+  match s_terms s with
+  | (t, _) :: _ => Some t
+  | [] => None
+  end.
+
+(** [cofactor(tag, node, n)]: the child with the incoming tag xor-ed onto it *)
+Definition retag (tag : bool) (e : edge) : edge := mkEdge (eref e) (xorb tag (etag e)).
 
 (** [not(e)] / [not_owned(e)]: flip the complement tag *)
 Definition enot (e : edge) : edge := mkEdge (eref e) (negb (etag e)).
@@ -50,7 +63,7 @@ Definition untag (e : edge) : edge := mkEdge (eref e) false.
 (** [get_terminal(manager, val)]: [manager.get_terminal(BCDDTerminal).unwrap()],
     complemented for [val = false] *)
 Definition cget_terminal (s : snap) (b : bool) : option edge :=
-  match bcdd_term s with
+  match bc_term_id s with
   | Some t => Some (mkEdge (RT t) (negb b))
   | None => None
   end.
@@ -326,6 +339,12 @@ Definition ccofactors (s : snap) (e : edge) : option (edge * edge) :=
     | None => None
     end
   end.
+
+(** ** The invariant the theorems assume, as a checker for real snapshots *)
+
+(** a well-formed BCDD table with exactly one terminal *)
+Definition bcok_b (s : snap) : bool :=
+  wf_b s && kind_eqb (s_kind s) KBcdd && Nat.eqb (length (s_terms s)) 1.
 
 (** ** A cache instance: unbounded association list keyed by edges *)
 
